@@ -37,3 +37,43 @@ fn finds_counterexample() {
     println!("{}", rep.to_json());
     assert!(!rep.violations.is_empty());
 }
+
+#[test]
+fn ops_match_i64_semantics_on_boundaries() {
+    // every operation: concrete value == i64 semantics, and the term evaluates to that value under the model
+    let vals: [i64; 9] = [i64::MIN, i64::MIN + 1, -1_000_000, -1, 0, 1, 1_000_000, i64::MAX - 1, i64::MAX];
+    let lim = Limits { max_paths: 1, max_secs: 30.0, max_violations: 1000 };
+    for &x in vals.iter() {
+        for &y in [-1_000_000i64, -7, 0, 3, 1_000_000].iter() {
+            let rep = explore(&lim, 1, true, &[("a".to_string(), y)], &mut || {
+                let a = SymInt::input("a", -1_000_000, 1_000_000);
+                let k = SymInt::lit(x);
+                let checks: Vec<(&str, SymInt, i64)> = vec![
+                    ("sat_add", k.saturating_add(a), x.saturating_add(y)),
+                    ("sat_add2", a.saturating_add(k), y.saturating_add(x)),
+                    ("sat_sub", k.saturating_sub(a), x.saturating_sub(y)),
+                    ("sat_sub2", a.saturating_sub(k), y.saturating_sub(x)),
+                    ("max", SymInt::max(k, a), x.max(y)),
+                    ("min", SymInt::min(k, a), x.min(y)),
+                    ("a+a", a + a, y + y),
+                    ("a-7", a - SymInt::lit(7), y - 7),
+                    ("neg", -a, -y),
+                    ("abs", a.abs(), y.abs()),
+                    ("mul3", a * SymInt::lit(3), y * 3),
+                ];
+                for (name, got, want) in checks {
+                    assert_eq!(got.conc(), want, "{} concrete", name);
+                    // symbolic: the term must equal the constant under every model that makes a == y
+                    oblige(name, a.eq_c(SymInt::lit(y)).not().or(got.eq_c(SymInt::lit(want))));
+                }
+                // comparisons agree with i64
+                assert_eq!(k < a, x < y);
+                assert_eq!(k <= a, x <= y);
+                assert_eq!(k == a, x == y);
+                assert_eq!(k.cmp(&a), x.cmp(&y));
+            });
+            assert!(rep.violations.is_empty(), "{:?}", rep.violations);
+            assert!(rep.refused.is_empty(), "{:?}", rep.refused);
+        }
+    }
+}
